@@ -18,14 +18,14 @@ func init() {
 		Quick: []Scenario{
 			{Name: "C06/doorkeeper-reset", Build: plain, Pkg: "internal", Test: "TestVerif_C06Door", Shards: 2, BudgetS: 60},
 			{Name: "C06/doorkeeper-filter", Build: plain, Pkg: "internal", Test: "TestVerif_C06Bloom", Shards: 2, BudgetS: 60},
-			mk("ttl-mix", 16, "10", 60), mk("cost", 8, "9", 60), mk("cost3", 8, "9", 60), mk("doorkeeper", 8, "9", 60), mk("loader-big", 8, "9", 60), mk("loader-costfn", 8, "9", 60), mk("loader-ttl", 8, "9", 60),
+			mk("ttl-mix", 16, "10", 60), mk("cost", 8, "9", 60), mk("cost3", 8, "9", 60), mk("doorkeeper", 8, "9", 60), mk("loader-big", 8, "9", 60), mk("loader-costfn", 8, "9", 60), mk("loader-ttl", 8, "9", 60), mk("loader-slow", 4, "7", 60), mk("loader-huge-ttl", 4, "6", 60),
 		},
 		Thorough: []Scenario{
 			{Name: "C06/doorkeeper-reset", Build: plain, Pkg: "internal", Test: "TestVerif_C06Door", Shards: 16, BudgetS: 600},
 			{Name: "C06/doorkeeper-filter", Build: plain, Pkg: "internal", Test: "TestVerif_C06Bloom", Shards: 4, BudgetS: 600},
 			{Name: "C06/bfs-cost-3clients", Build: sched, Pkg: "internal", Test: "TestVerif_C06", Params: "cfg=cost,depth=13,clients=3,ops=2", Shards: 16, BudgetS: 600},
 			{Name: "C06/bfs-ttl-mix-2clients", Build: sched, Pkg: "internal", Test: "TestVerif_C06", Params: "cfg=ttl-mix,depth=11,clients=2,ops=3", Shards: 16, BudgetS: 600},
-			mk("ttl-mix", 16, "13", 600), mk("cost", 16, "12", 600), mk("cost3", 16, "12", 600), mk("doorkeeper", 16, "12", 600), mk("loader-big", 16, "11", 600), mk("loader-costfn", 16, "11", 600), mk("loader-ttl", 16, "11", 600),
+			mk("ttl-mix", 16, "13", 600), mk("cost", 16, "12", 600), mk("cost3", 16, "12", 600), mk("doorkeeper", 16, "12", 600), mk("loader-big", 16, "11", 600), mk("loader-costfn", 16, "11", 600), mk("loader-ttl", 16, "11", 600), mk("loader-slow", 8, "9", 600), mk("loader-huge-ttl", 8, "8", 600),
 		},
 	})
 }
